@@ -20,6 +20,7 @@ pub mod c11;
 pub mod c10;
 pub mod c16;
 pub mod c06;
+pub mod selftest;
 
 use report::{Evidence, Violation};
 
@@ -43,6 +44,12 @@ pub fn intercept() -> bool {
         Some("replay") => cmd_replay(&args[3..]),
         Some("gen") => cmd_gen(&args[3..]),
         Some("bench-spawn") => cmd_bench_spawn(&args[3..]),
+        Some("selftest-digest") => {
+            need_shim();
+            let n = arg_value(&args[3..], "--n").and_then(|s| s.parse().ok()).unwrap_or(2000usize);
+            for l in selftest::digests(env_seed(), n) { println!("{}", l); }
+            0
+        }
         _ => {
             eprintln!("usage: fml verif check <ID> --tier quick|thorough | replay <file> | gen --case N");
             2
